@@ -100,4 +100,15 @@ Qed.
 Theorem forbidden_segment_forbids d pool input :
   validate_valuepool d pool input IS_FORBIDDEN = Ok (d, VDe IS_FORBIDDEN true None None (Some []) DT_VALUE_POOL).
 Proof. reflexivity. Qed.
+(* C16 for value pools: an entry whose expression is invalid is offered (it "is treated as selectable"), whatever the pool looks like *)
+Theorem invalid_entry_is_offered pool p : In p pool -> ev (snd p) = Exn InvalidExpr -> In (qm p) (offered pool).
+Proof.
+  intros Hin Hinv. unfold offered.
+  assert (Hok : entry_ok p = true) by (unfold entry_ok, admissible; now rewrite Hinv).
+  destruct pool as [|a [|b t]].
+  - destruct Hin.
+  - destruct Hin as [->|[]]. left. reflexivity.
+  - apply in_map. apply filter_In. split; assumption.
+Qed.
+
 End Pool.
